@@ -1729,6 +1729,14 @@ def step_wiring(chk):
     chk.pat("E2-argument-role", c2, "flux_advection(*self._nPoints, f, coeffs[rIdx,cIdx], vals)", ok,
             "(n_theta, n_z), the field, the weights of the same (r,v) entry as the shifts, and the table", bad,
             file=U.ADV, func=f"{CLS}.step")
+    # the field the kernel overwrites is the caller's array (shared rule, C05.result_in_place)
+    from .C05 import result_in_place
+    f_formal0 = next((k_ for k_, v_ in (rc or {}).get("role", {}).items() if v_ == "f"), None) if rc is not None and rc.get("bind") else None
+    if f_formal0 is not None and f_formal0 in rc["bind"]:
+        result_in_place(chk, chk.mod(U.ADV).cls(CLS), fn, [("flux_advection", c2, rc["bind"][f_formal0])], U.ADV, CLS)
+    else:
+        chk.ob("E2-result-in-place", c2, "flux_advection: the field it overwrites is the caller's array", None,
+               "which argument of the kernel call is the field it overwrites is not established", file=U.ADV, func=f"{CLS}.step")
     # points = (theta, z); table allocated [n_z, n_theta, stencil] as the kernels index it
     init = chk.func(U.ADV, f"{CLS}.__init__")
     vals = {}
